@@ -47,6 +47,11 @@ def generate(seed, stratum, tier):
                              spec_kw=kw, ops=ops, weights=weights, nops=(5, 40))
   if sibling:
     sc['sibling'] = True
+  if rng.random() < 0.3:
+    # a poster that keeps its Event object and posts the very same object again
+    for o in sc['ops']:
+      if o[0] in ('post_fifo', 'post_lifo') and rng.random() < 0.4:
+        o[:] = ['re' + o[0]]
   if rng.random() < 0.25:
     # a small queue: posts made by handlers during a step find it full or nearly full (the event being handled has
     # already left it); overflow displaces as a bounded deque does
